@@ -995,7 +995,13 @@ where
         let mom_plus = mom_prime.clone();
         let grad_minus = grad_prime.clone();
         let grad_plus = grad_prime.clone();
-        let alpha_prime = T::min(T::one(), (joint - joint_0).exp());
+        // A NaN energy (a leapfrog step into a region where the density is undefined) counts
+        // as a rejected point; `T::min(1, NaN)` would report it as perfectly accepted.
+        let alpha_prime = if joint.is_nan() {
+            T::zero()
+        } else {
+            T::min(T::one(), (joint - joint_0).exp())
+        };
         let n_alpha_prime = 1_usize;
         (
             position_minus,
